@@ -76,7 +76,13 @@ func verdict(in, out []rec, c cmpSpec) string {
 	}
 	strictBefore := func(a, b rec) bool { return c.less(a, b) && !c.less(b, a) }
 	for i := 0; i < len(out); i++ {
-		for j := i + 1; j < len(out); j++ {
+		// (the comparators used are weak orders: for the long lists adjacent pairs decide orderedness; short
+		// lists are checked pairwise)
+		jmax := len(out)
+		if len(out) > 12 && i+2 < jmax {
+			jmax = i + 2
+		}
+		for j := i + 1; j < jmax; j++ {
 			if strictBefore(out[j], out[i]) {
 				return fmt.Sprintf("not ordered: %v precedes %v although the comparator places the latter strictly first", out[i], out[j])
 			}
